@@ -452,26 +452,31 @@ func (p *Parser) checkNewVariableNameToken(token lexer.Token, ctx context) error
 
 func (p *Parser) getUsedFuncs(startFunc string) []string {
 	usedFuncs := []string{}
+	visited := map[string]bool{}
 	startFunc = strings.TrimSpace(startFunc)
 
-	if usedFuncsTemp, exists := p.usedFuncs[startFunc]; exists {
-		if len(startFunc) > 0 && !slices.Contains(usedFuncs, startFunc) {
-			usedFuncs = append(usedFuncs, startFunc)
-		}
+	if _, exists := p.usedFuncs[startFunc]; exists && len(startFunc) > 0 {
+		usedFuncs = append(usedFuncs, startFunc)
+	}
+	var visit func(funcName string)
 
-		for _, usedFuncTemp := range usedFuncsTemp {
+	// Every function is only visited once, otherwise the effort grows exponentially
+	// with the depth of call graphs in which functions share their callees.
+	visit = func(funcName string) {
+		if visited[funcName] {
+			return
+		}
+		visited[funcName] = true
+
+		for _, usedFuncTemp := range p.usedFuncs[funcName] {
 			if !slices.Contains(usedFuncs, usedFuncTemp) {
 				usedFuncs = append(usedFuncs, usedFuncTemp)
 			}
-			usedSubFuncs := p.getUsedFuncs(usedFuncTemp)
-
-			for _, usedSubFunc := range usedSubFuncs {
-				if !slices.Contains(usedFuncs, usedSubFunc) {
-					usedFuncs = append(usedFuncs, usedSubFunc)
-				}
-			}
+			visit(strings.TrimSpace(usedFuncTemp))
 		}
 	}
+	visit(startFunc)
+
 	return usedFuncs
 }
 
